@@ -16,9 +16,11 @@ Obs == ndJsonDeserialize("obs.ndjson")
 
 Mk(m) == [nil |-> m.nil, paths |-> m.paths]
 OptsOf(t) == [t.o EXCEPT !.M = Mk(t.o.M), !.R = Mk(t.o.R), !.mm = Mk(t.o.mm)]
-SubOf(s) == [updatesOnly |-> s.updatesOnly, mask |-> Mk(s.mask), inc |-> s.inc]
+SubOf(s) == [pid |-> s.pid, updatesOnly |-> s.updatesOnly, mask |-> Mk(s.mask), inc |-> s.inc]
 If(b, name) == IF b THEN {} ELSE {name}
 
+\* (PullID looks its id up through the id interceptor)
+SubT(t, k) == [SubOf(t.subs[k]) EXCEPT !.pid = Icpt(t.icpt, t.subs[k].pid)]
 \* which property a delivery clause belongs to: include predicates are C08
 DelivTag(sub) == IF sub.inc.nil THEN "C04:" ELSE "C08:"
 
@@ -29,9 +31,19 @@ CollWriteFails(t, r) ==
   \cup If(t.post = r.post, IF r.err = "OK" THEN "C01:post" ELSE "C01:failed-call-changed-store")
   \cup If(t.idcb = r.idcb, "C01:id-callback")
   \cup If(t.ccb = r.ccb, "C01:created-callback")
-  \cup UNION { LET sub == SubOf(t.subs[s])
+  \cup UNION { LET sub == SubT(t, s) IN
+               IF sub.pid = "" THEN {} ELSE
+               LET pd == IF r.ev = <<>> \/ t.closedBefore[s] THEN [deliv |-> <<>>, closes |-> FALSE]
+                         ELSE PidDeliver(r.ev[1], sub, t.equiv)
+               IN If(t.deliv[s] = pd.deliv, "C04:single-item-subscription-event")
+                  \cup If(t.closedAfter[s] = (t.closedBefore[s] \/ pd.closes),
+                          IF pd.closes THEN "C04:single-item-subscription-survives-removal"
+                          ELSE "C04:single-item-subscription-ended-without-removal")
+             : s \in 1..Len(t.subs) }
+  \cup UNION { LET sub == SubT(t, s)
                    want == IF r.ev = <<>> THEN <<>> ELSE CollDeliver(r.ev[1], sub, t.equiv)
-               IN If(t.deliv[s] = want,
+               IN IF sub.pid # "" THEN {} ELSE
+                  If(t.deliv[s] = want,
                      DelivTag(sub) \o (IF r.err # "OK" THEN "failed-write-emitted"
                                        ELSE IF Len(t.deliv[s]) # Len(want) THEN "event-count"
                                        ELSE IF t.deliv[s][1].ct # want[1].ct THEN "event-change-time"
@@ -40,8 +52,9 @@ CollWriteFails(t, r) ==
 
 CollFails(t) ==
   CASE t.op = "Subscribe" ->
-         UNION { LET sub == SubOf(t.subs[s]) IN
-                 If(t.deliv[s] = CollSeed(t.pre, sub), DelivTag(sub) \o "seed") : s \in 1..Len(t.subs) }
+         UNION { LET sub == SubT(t, s) IN
+                 If(t.deliv[s] = (IF sub.pid = "" THEN CollSeed(t.pre, sub) ELSE PidSeed(t.pre, sub)),
+                    DelivTag(sub) \o "seed") : s \in 1..Len(t.subs) }
     [] t.op = "Update" -> CollWriteFails(t, CollUpdate(t.pre, t.now, t.icpt, t.id, t.msg, OptsOf(t)))
     [] t.op = "Add" -> CollWriteFails(t, CollUpdate(t.pre, t.now, t.icpt, t.id, t.msg,
                                                     [OptsOf(t) EXCEPT !.xa = TRUE, !.cia = TRUE]))
